@@ -65,7 +65,12 @@ Px(cfg, st) == ProxyOf(cfg, st.cur)
 Tun(cfg, st) == Tunnelled(st.cur, Px(cfg, st))
 
 \* --- C09
-G09_noExtraRequest(cfg, st, h) == st.expect.k = "request"
+\* nothing listened where the first connection was dialled: the call fails, and nothing is sent anywhere else instead
+FirstDialRefused(cfg) == cfg.defaults.refused /\ ~cfg.second
+G09_noExtraRequest(cfg, st, h) == st.expect.k = "request" /\ ~FirstDialRefused(cfg)
+\* (C19) the client never waits on a connection for octets the peer will not send: in particular a redirect is
+\* followed on the strength of its head, whatever body it announces
+G19_noWaitForRedirectBody(cfg, st, h) == Tun(cfg, st) \/ h.stalls = 0
 G09_bound(cfg, st, h) == st.hops + 1 <= (IF cfg.settings.follow THEN cfg.settings.maxRedir + 1 ELSE 1)
 \* the request is for the URL the previous response pointed to (RFC 3986 resolution)
 G09_resolvedTarget(cfg, st, h) ==
@@ -154,7 +159,7 @@ G07_noSecretsToProxy(cfg, st, h) == TRUE
 HopGuards == {"G09_noExtraRequest", "G09_bound", "G09_resolvedTarget", "G08_dial", "G08_targetForm", "G08_noFragmentNoCreds",
               "G08_host", "G12_connectOnlyWhenTunnelled", "G12_connectNamesOrigin", "G12_proxyAuthorization",
               "G12_nothingBeforeAgreement", "G12_noSecretsInClear", "G12_sniIsOrigin", "G07_oneWellFormedRequest", "G07_method",
-              "G07_framingConsistent", "G07_bodyFaithful", "G07_connectionClose", "G07_queryAndHeaders", "G07_target", "G07_defaultHeaders"}
+              "G07_framingConsistent", "G07_bodyFaithful", "G07_connectionClose", "G07_queryAndHeaders", "G07_target", "G07_defaultHeaders", "G19_noWaitForRedirectBody"}
 HopGuard(g, cfg, st, h) ==
   CASE g = "G09_noExtraRequest" -> G09_noExtraRequest(cfg, st, h)
     [] g = "G09_bound" -> G09_bound(cfg, st, h)
@@ -177,6 +182,7 @@ HopGuard(g, cfg, st, h) ==
     [] g = "G07_queryAndHeaders" -> G07_queryAndHeaders(cfg, st, h)
     [] g = "G07_target" -> G07_target(cfg, st, h)
     [] g = "G07_defaultHeaders" -> G07_defaultHeaders(cfg, st, h)
+    [] g = "G19_noWaitForRedirectBody" -> G19_noWaitForRedirectBody(cfg, st, h)
 
 \* property a failed hop guard belongs to: request-shape guards are C07 on the first request, C10 on later hops;
 \* per-hop peer / Host / proxy choice is C08 on the first request, C10 afterwards
@@ -185,9 +191,11 @@ HopProp(g, st) ==
     [] g \in {"G08_dial", "G08_targetForm", "G08_noFragmentNoCreds", "G08_host"} -> "C08"
     [] g \in {"G12_connectOnlyWhenTunnelled", "G12_connectNamesOrigin", "G12_proxyAuthorization", "G12_nothingBeforeAgreement",
               "G12_noSecretsInClear", "G12_sniIsOrigin"} -> "C12"
+    [] g = "G19_noWaitForRedirectBody" -> "C19"
     [] OTHER -> "C07"
 \* C10 restates C07 and C08 for every later hop: those failures are reported under both properties
-AlsoC10(g, st) == st.hops > 0 /\ (g \in {"G08_dial", "G08_targetForm", "G08_noFragmentNoCreds", "G08_host"} \/ HopProp(g, st) = "C07")
+AlsoC10(g, st) == st.hops > 0 /\ g # "G19_noWaitForRedirectBody"
+                  /\ (g \in {"G08_dial", "G08_targetForm", "G08_noFragmentNoCreds", "G08_host"} \/ HopProp(g, st) = "C07")
 HopViolations(cfg, st, h) == {g \in HopGuards : ~HopGuard(g, cfg, st, h)}
 
 AfterHop(cfg, st) == [After(cfg, st) EXCEPT !.hops = @ + 1]
@@ -197,7 +205,7 @@ AfterHop(cfg, st) == [After(cfg, st) EXCEPT !.hops = @ + 1]
 (* ---------------------------------------------------------------------- *)
 SameUrlModFragment(a, b) == SameUrl(a, b)
 G09_outcome(cfg, st, d) ==
-  CASE cfg.defaults.bodyFails \/ TransportBroke(cfg) -> d.res = "err"       \* the body's / the transport's error is the call's error
+  CASE cfg.defaults.bodyFails \/ TransportBroke(cfg) \/ FirstDialRefused(cfg) -> d.res = "err"       \* the body's / the transport's error is the call's error
     [] st.expect.k = "ok"  -> d.res = "ok" /\ d.status = st.expect.status
     [] st.expect.k = "err" -> d.res = "err" /\ (st.expect.what = "TooManyRedirections" => d.kind = "TooManyRedirections")
     [] OTHER -> d.res = "err"      \* stopped although another request was due: only an error can explain that
